@@ -165,6 +165,9 @@ def work(ctx, tier):
         for i in range(n_hist):
             _adaptive_decimal_history(ctx, viol, rng, i)
         _adaptive_threads(ctx, viol, tier, rng, world)
+        for i in range(12 if tier == "quick" else 200):
+            _adaptive_long_history(ctx, viol, world, rng, i)
+        _strategy_threads(ctx, viol, tier, rng, draws)
 
 
 def _jitter_case(ctx, viol, draws, name, f, fn, g, base, mx, attempt, prev, mode, i):
@@ -319,6 +322,79 @@ def _adaptive_threads(ctx, viol, tier, rng, world):
     sched.uninstall_monitor()
 
 
+def _adaptive_long_history(ctx, viol, world, rng, i):
+    """Thousands of outcomes inside ONE window (a busy service): any bounded buffer / running counter behind the window must still
+    keep the multiplier inside its range."""
+    window = rng.choice([60.0, 600.0])
+    mn, mxm = rng.choice([(1.0, 5.0), (1.0, 2.0), (1.5, 4.0)])
+    target = rng.choice([0.9, 0.5, 0.99])
+    st = adaptive(lambda c: 1.0, window_s=window, target_success=target, min_multiplier=mn, max_multiplier=mxm)
+    cfgd = {"window_s": window, "target_success": target, "min_multiplier": mn, "max_multiplier": mxm}
+    ctxo = BackoffContext(attempt=1, classification=Classification(klass=K), prev_sleep_s=None, remaining_s=None, cause="exception")
+    n = rng.choice([1025, 1100, 2049, 3000, 5000])
+    p_fail = rng.choice([1.0, 0.9, 0.5])
+    seq = []
+    try:
+        for j in range(n):
+            if rng.random() < p_fail:
+                st.record_failure(K)
+                seq.append("F")
+            else:
+                st.record_success()
+                seq.append("S")
+            if j % 97 == 0:
+                world.t += 1.0 / 64
+            if j > 1000 and j % 131 == 0 or j == n - 1:
+                r = st(ctxo)
+                ctx.cnt["eval:adaptive"] += 1
+                ctx.cnt["eval:adaptive-long-window"] += 1
+                ctx.cnt["evaluations"] += 1
+                if not isinstance(r, float) or r != r or not (close_le(mn, r) and close_le(r, mxm)):
+                    viol("adaptive-outside-multiplier-range", f"adaptive returned {r!r} for fallback 1.0 after {j + 1} outcomes in one window ({seq.count('F')} failures); expected within [{mn}, {mxm}]; {cfgd}",
+                         {"cfg": cfgd, "outcomes_in_window": j + 1})
+                    return
+        # a quiet period, one fresh success: the stale history must be gone
+        world.t += window + 1.0
+        st.record_success()
+        r = st(ctxo)
+        if not (close_le(mn, r) and close_le(r, mn)):
+            viol("adaptive-outside-multiplier-range", f"adaptive returned {r!r} after the whole history aged out and one success was recorded; expected {mn}; {cfgd}", {"cfg": cfgd, "outcomes_in_window": n})
+    except BaseException as x:  # noqa: BLE001
+        viol("strategy-raised:" + type(x).__name__, f"adaptive raised {type(x).__name__}: {x} after a long history; {cfgd}", {"cfg": cfgd})
+
+
+def _strategy_threads(ctx, viol, tier, rng, draws):
+    """The jitter strategies and retry_after_or are functions of their context: one strategy object shared by two or three
+    threads (e.g. a module-level constant used by every policy) answers each of them as it answers that context alone - whatever
+    it caches, and also for whoever asks afterwards."""
+    draws.mode = "half"
+
+    def bc(attempt, hint=None, remaining=None, prev=None):
+        return BackoffContext(attempt=attempt, classification=Classification(klass=K, retry_after_s=hint), prev_sleep_s=prev, remaining_s=remaining, cause="exception")
+
+    cases = []
+    for name, fac in (("equal_jitter", equal_jitter), ("token_backoff", token_backoff), ("decorrelated_jitter", decorrelated_jitter)):
+        for _ in range(2 if tier == "quick" else 12):
+            a1, a2 = rng.sample(range(1, 9), 2)
+            cases.append((f"{name}(base_s=0.25, max_s=30.0) attempts {a1}/{a2}", (lambda fac_: (lambda: _normalize_strategy(fac_(base_s=0.25, max_s=30.0))))(fac), [bc(a1), bc(a2)], [bc(k_) for k_ in range(1, 13)]))
+        a = sorted(rng.sample(range(1, 9), 3))
+        cases.append((f"{name}(base_s=0.25, max_s=30.0) attempts {a}", (lambda fac_: (lambda: _normalize_strategy(fac_(base_s=0.25, max_s=30.0))))(fac), [bc(x) for x in a], [bc(k_) for k_ in range(1, 13)]))
+    for _ in range(2 if tier == "quick" else 12):
+        h, rem = rng.choice([2.0, 5.0, 30.0]), rng.choice([0.5, 1.0, 3.0])
+        cases.append((f"retry_after_or: hint {h} with 60 s left / no hint with {rem} s left", lambda: retry_after_or(lambda c: 0.125, jitter_s=0.0), [bc(1, hint=h, remaining=60.0), bc(1, remaining=rem)], [bc(2, hint=h, remaining=60.0)]))
+    for k, (label, make, calls, after) in enumerate(cases):
+        if k % ctx.nshards != ctx.shard:
+            continue
+        ok = common.function_threads(ctx, viol, label, make, calls, after, limit=60 if tier == "quick" else 600, counter="strategy_thread_schedules")
+        ctx.cnt["strategy_thread_cases"] += 1
+        if not ok:
+            break
+    from .. import sched
+
+    sched.uninstall_monitor()
+    draws.mode = "seeded"
+
+
 def _adaptive_decimal_history(ctx, viol, rng, i):
     """adaptive() with an injected clock (public `clock=` parameter) whose readings are ordinary decimal values - tenths of a second
     from 0 - so that an event's age lands on window_s up to float rounding (0.1 -> 5.1 with window 5.0): any two spellings of
@@ -419,13 +495,16 @@ def conclude(ctx):
         floors["adaptive_multiplier:" + a] = (ctx.cnt.get("adaptive_multiplier:" + a, 0), 20)
     floors["eval:adaptive-decimal-clock"] = (ctx.cnt["eval:adaptive-decimal-clock"], 500)
     floors["adaptive_thread_schedules"] = (ctx.cnt["adaptive_thread_schedules"], 200)
+    floors["eval:adaptive-long-window"] = (ctx.cnt["eval:adaptive-long-window"], 50)
+    floors["strategy_thread_schedules"] = (ctx.cnt["strategy_thread_schedules"], 100)
     if not ctx.samples:
         ctx.sample({"strategy": "equal_jitter", "base_s": 0.25, "max_s": 30.0, "attempt": 1024, "draw": "upper"})
     return dict(
         rule=(
             "systematic grid (strategy x 14 parameterisations x ~270 attempt numbers incl. 1023/1024/1751/2^k+-1/1e30 x draw modes) + seeded random cases; "
             "retry_after_or grid over hints x jitter x remaining x fallback garbage x draw; adaptive fed random success/failure/clock histories (dyadic clock; and an injected clock in tenths of a second so that ages land on window_s up to float rounding) "
-            "and run as small concurrent programs under the controlled thread scheduler; "
+            "and histories of thousands of outcomes inside one window, and run as small concurrent programs under the controlled thread scheduler; the jitter strategies and retry_after_or are "
+            "called by 2-3 threads at once on one shared object and must answer each context as they answer it alone; "
             "one evaluation = one call of a real strategy callable with its postcondition checked; distinct = distinct input tuples (seeded draws distinguished by result)"
         ),
         evaluations=ctx.cnt["evaluations"],
